@@ -3,7 +3,7 @@
    nat, positive, Z, Q stay the extracted inductive types. *)
 From Coq Require Import Extraction ExtrOcamlBasic.
 From Coq Require Import QArith.
-From Model Require Import Base Dense Sparse ProcessSetM NumInst.
+From Model Require Import Base Dense Sparse ProcessSetM NumInst LU.
 
 Extraction Language OCaml.
 Set Extraction KeepSingleton.
@@ -16,4 +16,7 @@ Extraction "model.ml"
   Sparse.sp_add_diag Sparse.set_of
   ProcessSetM.ps_build ProcessSetM.nonzero_jac ProcessSetM.flat_ids ProcessSetM.add_forcing
   ProcessSetM.sub_jacobian
+  LU.doolittle_sym LU.doolittle_ip_sym LU.mozart_sym LU.mozart_ip_sym
+  LU.doolittle_num LU.doolittle_ip_num LU.mozart_num LU.mozart_ip_num LU.lin_solve LU.lin_solve_ip
+  LU.pat_of LU.mat_of
   Qred Qplus Qmult Qminus Qdiv Qcompare Z.of_nat Z.to_nat Z.compare Pos.to_nat.
